@@ -7,10 +7,10 @@ import Driver.SuiteExt
         i | n | c/x<packet> | o/<maxlen> | r/<begin>/<end>/<maxlen> | R/<begin>/<end>/<maxlen>/<sd>/<pad>/<exts>
         → ops=<k> then one token per op: - | <nb_frames> | OK/err | <ret>:x<bytes> / err
    repack pad x<packet> <new_len>                     → OK x<bytes> | err
-   repack unpad x<packet>                             → <ret> x<bytes> | err
+   repack unpad x<packet>                             → OK <ret> x<bytes> | err
    repack mspad x<packet> <new_len> <nb_streams>      → OK x<bytes> | err
-   repack msunpad x<packet> <nb_streams>              → <ret> x<bytes> | err
-   repack padimpl x<packet> <new_len> <pad> <exts>    → <ret> x<bytes> | err               -/
+   repack msunpad x<packet> <nb_streams>              → OK <ret> x<bytes> | err
+   repack padimpl x<packet> <new_len> <pad> <exts>    → OK <ret> x<bytes> | err            -/
 namespace Driver.SuiteRepack
 open Opus Opus.Repack Driver
 
@@ -59,7 +59,7 @@ def handle : List String → String
     | _, _ => "bad-op"
   | ["unpad", hex] =>
     match parseHex hex with
-    | some bs => resStr (fun o => s!"{o.length} {toHex o}") (packetUnpad bs)
+    | some bs => resStr (fun o => s!"OK {o.length} {toHex o}") (packetUnpad bs)
     | none => "bad-op"
   | ["mspad", hex, nl, ns] =>
     match parseHex hex, parseInt nl, parseInt ns with
@@ -67,13 +67,13 @@ def handle : List String → String
     | _, _, _ => "bad-op"
   | ["msunpad", hex, ns] =>
     match parseHex hex, parseInt ns with
-    | some bs, some ns => resStr (fun o => s!"{o.length} {toHex o}") (msUnpad bs ns)
+    | some bs, some ns => resStr (fun o => s!"OK {o.length} {toHex o}") (msUnpad bs ns)
     | _, _ => "bad-op"
   | ["padimpl", hex, nl, pad, exts] =>
     match parseHex hex, parseInt nl, parseNat pad, SuiteExt.parseExtList exts with
     | some bs, some nl, some pad, some exts =>
       let same := (bs.length : Int) = nl ∧ bs.length ≥ 1
-      resStr (fun o => s!"{if same then 0 else o.length} {toHex o}") (padImpl bs nl (pad != 0) exts)
+      resStr (fun o => s!"OK {if same then 0 else o.length} {toHex o}") (padImpl bs nl (pad != 0) exts)
     | _, _, _, _ => "bad-op"
   | _ => "bad-op"
 
